@@ -17,6 +17,7 @@
 import Proofs.C01.Run
 import Proofs.C01.Uni
 import Proofs.C01.SqueethValue
+import Proofs.C01.SqueethDict
 import Demeter.Actuator.Markets
 import Proofs.C01.UniSqueeth
 namespace Demeter
@@ -64,6 +65,43 @@ theorem e2e_worldAfter_once (S : Setup) : ∀ (l : List Ev) (w : World), Squeeth
   | [], _, h => h
   | e :: l, w, h => e2e_worldAfter_once S l _ (e2e_eff_once S e w h)
 
+theorem e2e_sqCall_dict (S : Setup) (w : World) (op : Squeeth.Op) (h : Squeeth.Dict w.sq) : Squeeth.Dict (sqCall S w op).sq :=
+  C01_squeeth_dict_step S.cx w.env w.sqIn op (Squeeth.keeps_of_fields (s := w.sq) (s' := w.sqIn) rfl rfl h)
+
+theorem e2e_opCall_dict (S : Setup) (w : World) (m : Nat) (tag : String) (h : Squeeth.Dict w.sq) : Squeeth.Dict (opCall S w m tag).sq := by
+  unfold opCall
+  split
+  · unfold uniCall; split <;> exact h
+  · split
+    · exact h
+    · exact e2e_sqCall_dict S w _ h
+
+theorem e2e_eff_dict (S : Setup) (e : Ev) (w : World) (h : Squeeth.Dict w.sq) : Squeeth.Dict (marketsEff S e w).sq := by
+  cases e with
+  | set ts m stage o src =>
+    simp only [marketsEff, setCall]
+    split
+    · split <;> exact h
+    · split
+      · split <;> exact h
+      · split <;> exact h
+  | update ts m =>
+    simp only [marketsEff, updCall]
+    split
+    · exact h
+    · split
+      · exact e2e_sqCall_dict S w _ h
+      · exact h
+  | opOk ts hk m tag => exact e2e_opCall_dict S w m tag h
+  | opRej ts hk m tag c => cases c <;> [exact e2e_opCall_dict S w m tag h; exact h]
+  | opFree ts hk m tag ok => exact e2e_opCall_dict S w m tag h
+  | _ => exact h
+
+theorem e2e_worldAfter_dict (S : Setup) : ∀ (l : List Ev) (w : World), Squeeth.Dict w.sq →
+    Squeeth.Dict (worldAfter (marketsValuation S) l w).sq
+  | [], _, h => h
+  | e :: l, w, h => e2e_worldAfter_dict S l _ (e2e_eff_dict S e w h)
+
 /-- conversion of a market quoted in `tok` into the account's quote token at the price row `src` -/
 def Setup.conv (S : Setup) (src : Option Int) (tok : String) : Option Rat :=
   if tok = S.quote then some 1 else AList.get? (S.prices src) tok
@@ -75,6 +113,10 @@ end Core
     failing, any data) it still does -/
 theorem C01_e2e_once_along_the_run (S : Setup) (w0 : World) (h0 : Squeeth.Once w0.sq) (calls : List Ev) :
     Squeeth.Once (worldAfter (marketsValuation S) calls w0).sq := e2e_worldAfter_once S calls w0 h0
+
+/-- … and its two containers stay dicts (no key twice) -/
+theorem C01_e2e_dict_along_the_run (S : Setup) (w0 : World) (h0 : Squeeth.Dict w0.sq) (calls : List Ev) :
+    Squeeth.Dict (worldAfter (marketsValuation S) calls w0).sq := e2e_worldAfter_dict S calls w0 h0
 
 /-- **the account row = wallet + the three markets' reported values, converted** (exact arithmetic): `Broker.get_account_status` over
     the concrete markets; `none` on both sides exactly when a price is missing -/
@@ -130,19 +172,42 @@ theorem C01_e2e_row_value (S : Setup) (hK : S.K.cx = NumCtx.exact) (hcx : S.cx =
     decoding of labels) and start world: the rows of a run that ends normally are, bar by bar, `get_account_status` at that bar's price
     row of the world `worldAfter … pre w0` that the three market models are in after exactly the calls before the row (`C01_run_rows`
     says which those are); and in every one of those worlds the shared positions container counts every position once. -/
-theorem C01_e2e_run_rows (S : Setup) (w0 : World) (h0 : Squeeth.Once w0.sq) (cfg : Cfg) (trigs : List Trig) (sc : Script)
+theorem C01_e2e_run_rows (S : Setup) (w0 : World) (h0 : Squeeth.Once w0.sq) (hd : Squeeth.Dict w0.sq) (cfg : Cfg) (trigs : List Trig) (sc : Script)
     (h : (run cfg trigs sc).err = none) (hidx : (barIndex cfg).Pairwise (· < ·)) :
     ∃ pres : List (List Ev),
       pres.length = (barIndex cfg).length ∧
       valuedRows NumCtx.exact (marketsValuation S) (run cfg trigs sc).trace w0 =
         List.zipWith (fun ts pre => (ts, acctRow NumCtx.exact (marketsValuation S) (priceRow cfg ts)
           (worldAfter (marketsValuation S) pre w0))) (barIndex cfg) pres ∧
-      (∀ pre ∈ pres, Squeeth.Once (worldAfter (marketsValuation S) pre w0).sq) ∧
+      (∀ pre ∈ pres, Squeeth.Once (worldAfter (marketsValuation S) pre w0).sq ∧ Squeeth.Dict (worldAfter (marketsValuation S) pre w0).sq) ∧
       ∀ (k : Nat) pre ts, pres[k]? = some pre → (barIndex cfg)[k]? = some ts →
         ∃ post, (run cfg trigs sc).trace = pre ++ Ev.row ts (priceRow cfg ts) :: post ∧
           (∀ e ∈ pre, BeforeRow ts e) ∧ (∀ e ∈ post, AfterRow ts e) := by
   obtain ⟨pres, hlen, hv, hsplit⟩ := C01_run_rows NumCtx.exact (marketsValuation S) w0 cfg trigs sc h hidx
-  exact ⟨pres, hlen, hv, fun pre _ => C01_e2e_once_along_the_run S w0 h0 pre, hsplit⟩
+  exact ⟨pres, hlen, hv, fun pre _ => ⟨C01_e2e_once_along_the_run S w0 h0 pre, C01_e2e_dict_along_the_run S w0 hd pre⟩, hsplit⟩
+
+/-- **C01 end to end, the value of the row after any calls of a run**: start from a world whose shared container counts every position
+    once and is a dict; after ANY calls (`pre`: in particular the calls before the row of bar k, `C01_e2e_run_rows`) the only guards left
+    are "the three `get_market_balance` calls return" and "the prices are there" — then the row's net value is the independent valuation,
+    every holding exactly once. -/
+theorem C01_e2e_row_value_after_calls (S : Setup) (hK : S.K.cx = NumCtx.exact) (hcx : S.cx = NumCtx.exact) (w0 : World)
+    (h0 : Squeeth.Once w0.sq) (hd : Squeeth.Dict w0.sq) (pre : List Ev) (src : Option Int)
+    (row : Uni.Row) (sqrt : Nat) (amt : Uni.Pos → Rat × Rat) (hrow : (worldAfter (marketsValuation S) pre w0).uni.row = some row)
+    (hsqrt : S.K.priceToSqrt S.pool row.price = .ok sqrt)
+    (hamt : ∀ p ∈ (worldAfter (marketsValuation S) pre w0).uni.positions, p.transferred = false →
+      S.K.amounts S.pool sqrt p.lower p.upper p.liq p.liqDec = .ok (amt p))
+    (bs : Squeeth.Balance)
+    (hbs : Squeeth.marketBalance NumCtx.exact (worldAfter (marketsValuation S) pre w0).env (worldAfter (marketsValuation S) pre w0).sqIn = .ok bs)
+    (a c0 c1 c2 : Rat) (ha : specWallet (S.prices src) (worldAfter (marketsValuation S) pre w0).wallet = some a)
+    (hc0 : S.conv src S.pool.quoteTok = some c0) (hc1 : S.conv src Gen.sqWethName = some c1) (hc2 : S.conv src S.sqQuote = some c2) :
+    let w := worldAfter (marketsValuation S) pre w0
+    (acctRow NumCtx.exact (marketsValuation S) src w).map (·.netValue) =
+      some (a + Uni.sumOver (Uni.posValue S.pool row.price amt) w.uni.positions * c0 +
+        Squeeth.sumIf (fun kp => !kp.2.transferred) (Squeeth.poolVal w.env) w.sq.positions * c1 +
+        ((Squeeth.sumIf (fun kp => kp.2.transferred) (Squeeth.idxVal w.env) w.sq.positions + (w.sq.vaults.map (·.2.coll)).sum) * w.env.weth -
+          (w.sq.vaults.map (·.2.short)).sum * (w.env.osqth * w.env.weth)) * c2) :=
+  C01_e2e_row_value S hK hcx src _ row sqrt amt hrow hsqrt hamt bs hbs (C01_e2e_once_along_the_run S w0 h0 pre)
+    (C01_e2e_dict_along_the_run S w0 hd pre).1 (C01_e2e_dict_along_the_run S w0 hd pre).2 a c0 c1 c2 ha hc0 hc1 hc2
 
 /-! ### non-vacuity: three bars, three markets.  Bar 0: `on_bar` adds liquidity on market 0 and opens a vault with the LP position
     (18000, 21000) of the oSQTH/WETH pool as collateral, minting 1 oSQTH; bar 1: `on_bar` buys 3 oSQTH through the pool (not a `write_func`).
@@ -185,6 +250,7 @@ example : (Squeeth.marketBalance NumCtx.exact e2eEnd.env e2eEnd.sqIn).toOption.i
     (specWallet (e2eSetup.prices (some 120)) e2eEnd.wallet).isSome = true ∧
     e2eSetup.conv (some 120) e2eSetup.pool.quoteTok = some 3 ∧ e2eSetup.conv (some 120) Gen.sqWethName = some 2120 ∧
     e2eSetup.conv (some 120) e2eSetup.sqQuote = some 1 := by decide +kernel
+example : Squeeth.Dict e2eWorld.sq := ⟨by decide, by decide⟩
 example : Squeeth.Once e2eEnd.sq :=
   C01_e2e_once_along_the_run e2eSetup e2eWorld (C01_squeeth_initially_once _ rfl (by
     intro pos p hp
